@@ -25,7 +25,7 @@ pub fn plan(property: &str) -> Option<Vec<PlanItem>> {
         "C04" => vec![it("matrix", 400_000, 20_000_000)],
         "C05" => vec![it("csr", 300_000, 15_000_000), it("list", 300_000, 15_000_000)],
         "C06" => vec![it("csr-visit", 40_000, 2_000_000), it("list-visit", 40_000, 2_000_000), it("matrix-visit", 40_000, 2_000_000), it("graph-visit", 60_000, 3_000_000), it("stable-visit", 60_000, 3_000_000), it("graphmap-visit", 60_000, 3_000_000)],
-        "C07" => vec![it("replicas", 30_000, 1_500_000)],
+        "C07" => vec![it("replicas", 120_000, 6_000_000)],
         "C14" => vec![it("acyclic-graph", 200_000, 10_000_000), it("acyclic-stable", 200_000, 10_000_000)],
         "C17" => vec![it("serde-stream", 300_000, 15_000_000)],
         "C19" => vec![it("unionfind", 4_000_000, 400_000_000)],
